@@ -80,6 +80,12 @@ pub enum DrvError {
 }
 
 pub fn run(sess: &Session, queries: &[Query]) -> Result<Vec<Reply>, DrvError> {
+    run_listing(sess, queries).map(|(r, _)| r)
+}
+
+/// like `run`, and also returns the names of the files that exist in the working directory afterwards
+/// (nothing the script runs may create any: canary for command substitution in grammar text)
+pub fn run_listing(sess: &Session, queries: &[Query]) -> Result<(Vec<Reply>, Vec<String>), DrvError> {
     let sc = Scratch::new();
     let script_path = sc.path("script.bash");
     std::fs::write(&script_path, sess.script).map_err(|e| DrvError::Infra(e.to_string()))?;
@@ -197,7 +203,9 @@ pub fn run(sess: &Session, queries: &[Query]) -> Result<Vec<Reply>, DrvError> {
             r.stderr_note = note.clone();
         }
     }
-    Ok(replies)
+    let mut files: Vec<String> = std::fs::read_dir(&work).map(|rd| rd.filter_map(|e| e.ok()).map(|e| e.file_name().to_string_lossy().to_string()).collect()).unwrap_or_default();
+    files.sort();
+    Ok((replies, files))
 }
 
 fn run_proc_clean(prog: &str, args: &[String], env: &[(String, String)], cwd: Option<&std::path::Path>, timeout: Duration) -> std::io::Result<crate::bin::ProcOut> {
